@@ -65,6 +65,16 @@ pub fn run(ctx: &Ctx) -> CheckResult {
     for n in 1..=4usize {
         spaces.push(Space { cfg: Cfg::p1(Kind::Mfi, n), alphabet: mfi_bars.clone(), depth: if th { 10 } else { 8 }, label: "B_mfi" });
     }
+    // typical prices exactly 2 ulps apart (one-price bars at 1, 1 + 2^-51, 1 - 2^-51: close + high + low and its
+    // third are exact, so "moved / did not move" is decidable and the flow is full size): a tolerance on
+    // the direction test shows only here
+    {
+        let e = 2f64.powi(-51);
+        let ulp_bars = b_ops(&[Bar::hlcv(1.0, 1.0, 1.0, 1.0), Bar::hlcv(1.0 + e, 1.0 + e, 1.0 + e, 2.0), Bar::hlcv(1.0 - e, 1.0 - e, 1.0 - e, 1.0), Bar::hlcv(2.0, 1.0, 2.0, 1.0), Bar::hlcv(1.5, 1.5, 1.5, 3.0)]);
+        for n in 1..=3usize {
+            spaces.push(Space { cfg: Cfg::p1(Kind::Mfi, n), alphabet: ulp_bars.clone(), depth: if th { 8 } else { 7 }, label: "B_mfi_ulp" });
+        }
+    }
     // MFI re-used through reset(): a full window (n+1 bars) before and after the reset
     let mfi_reset = with_reset(mfi_bars.clone());
     let mfi_reset4: Vec<Op> = with_reset(vec![mfi_bars[0], mfi_bars[2], mfi_bars[3]]);
